@@ -51,10 +51,18 @@ func (o Op) Label() string {
 		return fmt.Sprintf("snap(%s,%s)", o.Sub, o.Name)
 	case "seekS":
 		return fmt.Sprintf("seekS(%s,%s)", o.Sub, o.Name)
-	case "createTopic", "deleteTopic":
+	case "createTopic", "deleteTopic", "getTopic":
 		return fmt.Sprintf("%s(%s)", o.K, o.Topic)
-	case "createSub", "deleteSub":
+	case "createSub":
+		return fmt.Sprintf("%s(%s%s)", o.K, o.Sub, o.Tgt)
+	case "deleteSub", "getSub":
 		return fmt.Sprintf("%s(%s)", o.K, o.Sub)
+	case "getSnap", "delSnap":
+		return fmt.Sprintf("%s(%s)", o.K, o.Name)
+	case "listTopics", "listSubs", "listSnaps":
+		return fmt.Sprintf("%s(%s,%d)", o.K, o.Tgt, o.Max)
+	case "listTopicSubs":
+		return fmt.Sprintf("%s(%s,%d)", o.K, o.Topic, o.Max)
 	case "job":
 		return fmt.Sprintf("job(%s,%v,%d)", o.Job, o.MinAge, o.MaxDel)
 	case "tick":
@@ -79,6 +87,9 @@ func (m *Model) windows(now time.Time) []Iv {
 			ws = append(ws, s.Activity.Add(s.Cfg.TTLOrDefault()))
 		}
 		for _, d := range s.Dels {
+			if d.State == Unknown {
+				continue // its fate is open anyway
+			}
 			if d.State == Acked || d.State == DeadLettered {
 				// retention of retired rows still matters to seeks and prunes
 				ws = append(ws, d.Exp)
@@ -166,13 +177,15 @@ func (m *Model) tickTarget(tgt string, now time.Time) (time.Time, bool) {
 	}
 	sort.Slice(cands, func(i, j int) bool { return cands[i].Before(cands[j]) })
 	if tgt == "lease++" {
-		// the last lease end: everything currently leased is due afterwards
-		for i := len(cands) - 1; i >= 0; i-- {
-			if m.cleanAt(cands[i], ws) {
-				return cands[i], true
-			}
+		// past the last lease end: everything currently leased is due afterwards
+		if len(cands) == 0 {
+			return time.Time{}, false
 		}
-		return time.Time{}, false
+		t := cands[len(cands)-1]
+		for i := 0; i < 200 && !m.cleanAt(t, ws); i++ {
+			t = t.Add(250 * time.Millisecond)
+		}
+		return t, m.cleanAt(t, ws)
 	}
 	for _, c := range cands {
 		if m.cleanAt(c, ws) {
@@ -233,16 +246,13 @@ func (m *Model) Prepare(op Op, now time.Time) (Call, bool) {
 	c := Call{Op: op}
 	switch op.K {
 	case "pub":
-		if m.Topics[op.Topic] == nil {
-			return c, false
-		}
 		for i := range op.Keys {
 			c.Payload = append(c.Payload, []byte(fmt.Sprintf(`{"n":%d}`, m.NPub+i+1)))
 			c.MsgAttrs = append(c.MsgAttrs, AttrPresets[op.Attrs[i]])
 		}
 		return c, true
 	case "pull":
-		return c, m.Subs[op.Sub] != nil
+		return c, true
 	case "ack", "modack", "nack":
 		s := m.Subs[op.Sub]
 		if s == nil {
@@ -295,7 +305,8 @@ func (m *Model) Prepare(op Op, now time.Time) (Call, bool) {
 		return c, m.liveSub(op.Sub) != nil
 	case "seekS":
 		return c, m.liveSub(op.Sub) != nil && m.Snaps[op.Name] != nil
-	case "createTopic", "deleteTopic", "createSub", "deleteSub", "job":
+	case "createTopic", "deleteTopic", "createSub", "deleteSub", "job",
+		"getTopic", "getSub", "getSnap", "delSnap", "listTopics", "listSubs", "listSnaps", "listTopicSubs":
 		return c, true
 	case "tick":
 		t, ok := m.tickTarget(op.Tgt, now)
